@@ -129,10 +129,10 @@ def judge_selftest(ck, recs, rejected_idx):
     case("auth-aniso", lambda r: r["req"]["opt"].update(aniso=False))
     case("lock-iso2d", lambda r: r["req"]["opt"].update(iso2d=True))
     case("constraint-RANGE", lambda r: r["req"]["cons"].append({"elem": "RANGE", "icov": len(r["req"]["types"]) - 1, "iv1": 0, "iv2": 0, "type": "UPPER",
-                                                              "val": r["out"]["model"]["covs"][k]["ranges"][0] - 1000}))
+                                                              "val": r["out"]["model"]["covs"][k]["ranges"][0] // 2}))
     case("constraint-SILL", lambda r: r["req"]["cons"].append({"elem": "SILL", "icov": len(r["req"]["types"]) - 1, "iv1": 1, "iv2": 1, "type": "EQUAL",
-                                                             "val": r["out"]["model"]["covs"][k]["sill"][3] + 50}))
-    case("constant-sill", lambda r: r["req"].update(csill=r["out"]["model"]["sumsill"][0] + 100))
+                                                             "val": r["out"]["model"]["covs"][k]["sill"][3] + 1000 + abs(r["out"]["model"]["covs"][k]["sill"][3]) // 1000}))
+    case("constant-sill", lambda r: r["req"].update(csill=r["out"]["model"]["sumsill"][0] + 1000 + abs(r["out"]["model"]["sumsill"][0]) // 1000))
     case("crash", lambda r: (r.pop("out"), r.update(crash="signal 11")))
     if len(base["req"]["types"]) != len(base["out"]["model"]["covs"]):
         cases = [c for c in cases if c[0] not in ("constraint-RANGE", "constraint-SILL")]
